@@ -6,6 +6,7 @@ package main
 import (
 	"fmt"
 	"math"
+	"math/big"
 	"strconv"
 
 	"github.com/bluenviron/mediamtx/internal/api"
@@ -38,10 +39,10 @@ func classify(s string, def int) (int, cls) {
 		return int(v), dontcare
 	}
 	if v > math.MaxInt32 {
-		if v > math.MaxInt64/4 {
+		if v > math.MaxInt64 {
 			return 0, invalid
 		}
-		return int(v), dontcare
+		return int(v), dontcare // accepted or rejected; if accepted the answer must still be the exact slice
 	}
 	return int(v), valid
 }
@@ -50,7 +51,7 @@ func main() {
 	r := vcommon.Start("C44", "exploration")
 	maxLen := 12
 	params := []string{"", "0", "1", "2", "3", "4", "5", "6", "7", "11", "12", "13", "100", "2147483647", "2147483648",
-		"4294967296", "-1", "+1", "1.0", "a", " 1", "1 ", "01", "0x1", "1e1", "９"}
+		"4294967296", "4611686018427387904", "6148914691236517206", "9223372036854775807", "9223372036854775808", "18446744073709551615", "-1", "+1", "1.0", "a", " 1", "1 ", "01", "0x1", "1e1", "９"}
 	if r.Thorough() {
 		maxLen = 40
 		for i := 8; i < 45; i++ {
@@ -125,9 +126,15 @@ func main() {
 				page, pcl := classify(ps, 0)
 				items := append([]int(nil), orig...)
 				backing := items
-				pcount, err := api.VerifPaginate(&items, ipps, ps)
-				r.Eval(1)
+				var pcount int
+				var err error
 				rep := map[string]any{"n": n, "itemsPerPage": ipps, "page": ps}
+				if pv, _ := vcommon.Recover(func() { pcount, err = api.VerifPaginate(&items, ipps, ps) }); pv != nil {
+					r.Eval(1)
+					r.Violation("panic", fmt.Sprintf("n=%d itemsPerPage=%q page=%q panics: %v", n, ipps, ps, pv), rep)
+					continue
+				}
+				r.Eval(1)
 				for i := range backing {
 					if backing[i] != orig[i] {
 						r.Violation("mutates-list", fmt.Sprintf("n=%d ipp=%q page=%q modified the list", n, ipps, ps), rep)
@@ -147,10 +154,15 @@ func main() {
 					continue
 				}
 				// accepted: must be the exact slice
-				lo := min(page*ipp, n)
-				hi := min(lo+ipp, n)
-				if page > 0 && ipp > math.MaxInt64/page {
-					lo, hi = n, n
+				// exact arithmetic: the product may exceed 64 bits for the huge (don't-care-accepted) values
+				blo := new(big.Int).Mul(big.NewInt(int64(page)), big.NewInt(int64(ipp)))
+				lo, hi := n, n
+				if blo.Cmp(big.NewInt(int64(n))) < 0 {
+					lo = int(blo.Int64())
+					hi = n
+					if bhi := new(big.Int).Add(blo, big.NewInt(int64(ipp))); bhi.Cmp(big.NewInt(int64(n))) < 0 {
+						hi = int(bhi.Int64())
+					}
 				}
 				want := orig[lo:hi]
 				if fmt.Sprint(items) != fmt.Sprint(want) {
